@@ -923,80 +923,85 @@ def eh_fold_facts(prog: Program, interp: Interp, r: DispatcherRoles) -> Tuple[Di
             org = prov.origins(n.ast.iter, f)
             if any(o[0] == 'param' and 'error_handler' in o[3] for o in org):
                 loops.append(n)
-    facts['handler_loops'] = len(loops)
-    if len(loops) != 1:
-        if not loops:
-            problems.append(('EH-FOLD', 'error handlers are never run', f.node.lineno,
-                             f'{short(f.qualname)} does not iterate the configured error handlers'))
-            return facts, problems
-        # several loops: the per-code lookup must not be evaluated after an earlier loop has replaced the error
-        for h2 in loops:
-            it_nodes = [m for m in cfg.nodes if m.kind == 'iter' and m.ast is h2.ast.iter]
-            keys = [x for x in ast.walk(h2.ast.iter) if isinstance(x, ast.Attribute) and x.attr == 'code']
-            for kx in keys:
-                ev = dotted(kx.value)
-                for m in cfg.stmt_nodes():
-                    if ev in assigned_names(m) and it_nodes and it_nodes[0].id in cfg.reachable(m) and m.handler is None:
-                        problems.append(('EH-FOLD', 'per-code handlers selected by the replaced error\'s code', h2.line,
-                                         f'`{norm(h2.ast.iter)[:80]}` is evaluated after `{norm(m.ast)[:60]}` (line {m.line}) may have replaced '
-                                         f'`{ev}`: the handlers registered for the RAISED error\'s code are skipped and those of the replacement '
-                                         f'code run instead'))
-                        break
-        if problems:
-            return facts, problems
-        raise AnalysisError(f'{f.qualname}: {len(loops)} loops over error handlers (recognised form: one loop over chain(generic, per-code))')
-    head = loops[0]
-    it = head.ast.iter
-    # the error variable: third argument of the handler call in the loop body
-    body_nodes = [n for n in cfg.stmt_nodes() if n.id in cfg.reachable(head, edge_ok=lambda e: e.label != 'exhausted')
-                  and head.id in cfg.reachable(n)]
-    calls = []
-    for n in body_nodes:
-        for c in calls_in(n):
-            if isinstance(c.func, ast.Name) and c.func.id == dotted(head.ast.target):
-                calls.append((n, c))
-    if len(calls) != 1:
-        problems.append(('EH-FOLD', f'{len(calls)} handler calls per iteration', head.line,
-                         f'each error handler must be called exactly once per failing request; the loop body calls it {len(calls)} times'))
+    facts['handler_loops'] = 1 if loops else 0
+    if not loops:
+        problems.append(('EH-FOLD', 'error handlers are never run', f.node.lineno,
+                         f'{short(f.qualname)} does not iterate the configured error handlers'))
         return facts, problems
-    n, c = calls[0]
-    args = [dotted(a) for a in c.args]
-    err_var = args[2] if len(args) > 2 else None
-    facts['call_args'] = ['<request>' if a == f.params[1].arg else '<context>' if a == f.params[2].arg else '<error>' if a == err_var else str(a)
-                          for a in args]
-    if len(args) != 3 or args[0] != f.params[1].arg or args[1] != f.params[2].arg or err_var is None:
-        problems.append(('EH-FOLD', 'handler not called with (request, context, error)', n.line,
-                         f'`{norm(c)}` does not pass the request, the context and the current error'))
-        return facts, problems
-    assigns = assigned_names(n)
-    if err_var not in assigns:
-        problems.append(('EH-FOLD', 'handler result is dropped', n.line,
-                         f'`{norm(n.ast)[:80]}`: the error returned by a handler must replace `{err_var}` so that the next handler and '
-                         f'the response receive it'))
-    # iteration source: chain(generic, per-code) evaluated once
-    order = []
     from ..flow import Flow
     fl_ = Flow(cfg)
-    it_n = [m for m in cfg.nodes if m.kind == 'iter' and m.ast is it]
+    # several consecutive loops (generic handlers, then per-code handlers) are one fold as long as they run in sequence
+    loops.sort(key=lambda h_: (0 if all(h_.id in cfg.reachable(o) or o is h_ for o in loops if o is not h_) else 1, h_.line))
+    loops.sort(key=lambda h_: sum(1 for o in loops if o is not h_ and h_.id in cfg.reachable(o) and o.id not in cfg.reachable(h_)))
+    err_var: Optional[str] = None
+    order: List[str] = []
+    all_call_nodes: List[Node] = []
+    lookups: List[Tuple[Node, ast.expr]] = []        # (node at which the lookup expression is evaluated, lookup expression)
 
-    def _resolved(a: ast.expr) -> ast.expr:
-        # a local holding the lookup (`common = handlers.get(None, [])`) stands for the lookup
-        if isinstance(a, ast.Name) and it_n:
-            al = fl_.alts(it_n[0], a)
-            if len(al) == 1:
-                return al[0].expr
-        return a
-    it_r = _resolved(it)
-    if isinstance(it_r, ast.Call) and dotted(it_r.func) in ('it.chain', 'itertools.chain', 'chain'):
-        for a in it_r.args:
-            order.append(_eh_key(_resolved(a), err_var))
-    else:
-        order.append(_eh_key(it_r, err_var))
+    def _resolved(at: Node, a: ast.expr) -> Tuple[Node, ast.expr]:
+        # a local holding the lookup (`common = handlers.get(None, [])`) stands for the lookup, evaluated where it is assigned
+        if isinstance(a, ast.Name):
+            al = fl_.alts(at, a)
+            if len(al) == 1 and al[0].node is not None:
+                return al[0].node, al[0].expr
+        return at, a
+    for head in loops:
+        it = head.ast.iter
+        body_nodes = [n for n in cfg.stmt_nodes() if n.id in cfg.reachable(head, edge_ok=lambda e: e.label != 'exhausted')
+                      and head.id in cfg.reachable(n)]
+        calls = []
+        for n in body_nodes:
+            for c in calls_in(n):
+                if isinstance(c.func, ast.Name) and c.func.id == dotted(head.ast.target):
+                    calls.append((n, c))
+        if len(calls) != 1:
+            problems.append(('EH-FOLD', f'{len(calls)} handler calls per iteration', head.line,
+                             f'each error handler must be called exactly once per failing request; the loop body calls it {len(calls)} times'))
+            return facts, problems
+        n, c = calls[0]
+        all_call_nodes.append(n)
+        args = [dotted(a) for a in c.args]
+        ev = args[2] if len(args) > 2 else None
+        facts['call_args'] = ['<request>' if a == f.params[1].arg else '<context>' if a == f.params[2].arg else '<error>' if a == ev else str(a)
+                              for a in args]
+        if len(args) != 3 or args[0] != f.params[1].arg or args[1] != f.params[2].arg or ev is None:
+            problems.append(('EH-FOLD', 'handler not called with (request, context, error)', n.line,
+                             f'`{norm(c)}` does not pass the request, the context and the current error'))
+            return facts, problems
+        if err_var is not None and ev != err_var:
+            problems.append(('EH-FOLD', 'handler loops thread different error variables', n.line,
+                             f'`{norm(c)}` passes `{ev}` while the earlier loop threads `{err_var}`'))
+            return facts, problems
+        err_var = ev
+        if err_var not in assigned_names(n):
+            problems.append(('EH-FOLD', 'handler result is dropped', n.line,
+                             f'`{norm(n.ast)[:80]}`: the error returned by a handler must replace `{err_var}` so that the next handler and '
+                             f'the response receive it'))
+        it_n = [m for m in cfg.nodes if m.kind == 'iter' and m.ast is it]
+        at0 = it_n[0] if it_n else head
+        at, it_r = _resolved(at0, it)
+        if isinstance(it_r, ast.Call) and dotted(it_r.func) in ('it.chain', 'itertools.chain', 'chain'):
+            for a in it_r.args:
+                at_a, a_r = _resolved(at, a)
+                order.append(_eh_key(a_r, err_var))
+                lookups.append((at_a, a_r))
+        else:
+            order.append(_eh_key(it_r, err_var))
+            lookups.append((at, it_r))
+    head = loops[0]
     facts['order'] = order
     if order != ['generic', 'per-code']:
         problems.append(('EH-FOLD', f'handler order {order}', head.line,
                          f'error handlers must run generic first, then those registered for the raised error\'s code, in list order; '
-                         f'found `{norm(it)[:100]}` = {order}'))
+                         f'found {order}'))
+    # the per-code handlers are those of the RAISED error: the lookup by error.code must happen before any handler replaced the error
+    facts['per_code_lookup'] = 'before any handler runs'
+    for at, le in lookups:
+        if _eh_key(le, err_var) == 'per-code' and any(at.id in cfg.reachable(cn) for cn in all_call_nodes):
+            facts['per_code_lookup'] = 'after a handler may have replaced the error'
+            problems.append(('EH-FOLD', 'per-code handlers selected by the replaced error\'s code', at.line,
+                             f'`{norm(le)[:80]}` is evaluated after a handler may have replaced `{err_var}`: the handlers registered for the RAISED '
+                             f'error\'s code are skipped and those of the replacement code run instead'))
     # the folded variable is what is sent
     sent_ok = False
     for rc in response_ctor_calls(prog, f):
@@ -1006,7 +1011,7 @@ def eh_fold_facts(prog: Program, interp: Interp, r: DispatcherRoles) -> Tuple[Di
             for m in cfg.stmt_nodes():
                 if any(y is rc for frag in node_exprs(m) for y in ast.walk(frag)):
                     rn = m
-            if rn is not None and rn.id in cfg.reachable(head):
+            if rn is not None and all(rn.id in cfg.reachable(h_) for h_ in loops):
                 sent_ok = True
     facts['sent'] = sent_ok
     if not sent_ok:
